@@ -163,7 +163,7 @@ fn run(ctx: &Ctx, env: &Env) -> Stats {
             }
         }
     }
-    let n_rand = ctx.t(30_000u64, 1_000_000);
+    let n_rand = ctx.t(30_000u64, 3_000_000);
     let max_ops = ctx.t(30usize, 120);
     for j in 0..16 {
         jobs.push(Box::new(move |ctx: &Ctx| {
